@@ -349,6 +349,12 @@ def observe(slot, m):
             tests.append(("off-by-one-window-passed", [(1, n, b"eq", data)]))
         tests.append(("testv-read-not-clipped", [(0, n + 1, b"eq", data + b"\x00")]))
         tests.append(("testv-read-not-clipped", [(n, 1, b"eq", b"\x00")]))
+        if n:
+            # several vectors for one share: ALL must hold (a failing one first, in the middle, last)
+            good, bad_ = (0, n, b"eq", data), (0, n, b"eq", data[:-1] + bytes([data[-1] ^ 1]))
+            tests.append(("failing-vector-before-passing-one", [bad_, good]))
+            tests.append(("failing-vector-between-passing-ones", [good, bad_, good]))
+            tests.append(("failing-vector-after-passing-one", [good, bad_]))
     for sig, tv in tests:
         slot.note("failing-testv-requests")
         try:
